@@ -194,7 +194,33 @@ def family(sp):
         return preobs_programs(sp['level'])
     if f == 'chain3':
         return chain_programs(sp['level'], **sp.get('kw', {}))
+    if f == 'args':
+        return args_programs(sp['size'], sp['level'], **sp.get('kw', {}))
     raise ValueError(f)
+
+
+# argument shapes whose stored form (the cache file sorts keys, JSON has one number spelling per value, nested
+# containers) differs textually from the form a fresh call passes, although both are equal as JSON values
+ARG_SHAPES = [
+    ([], {'b': 1, 'a': 2}),
+    ([{'z': 1, 'y': [1, 2], 'x': {'q': None, 'p': True}}], {}),
+    ([1.0, 2, 'u'], {'k': [1.0, {'n': 0, 'm': -1}]}),
+    ([[], {}, '', 0, False, None], {'z': '', 'a': []}),
+]
+
+
+def args_programs(size, level, **kw):
+    """every skeleton of the size, every bf/sb node carrying the same non-trivial args/kwargs shape"""
+    import copy
+    for prog in programs(size, level, **kw):
+        if not any(True for _ in call_nodes_of(prog['root'])):
+            continue
+        for a, k in ARG_SHAPES:
+            q = copy.deepcopy(prog)
+            for n in call_nodes_of(q['root']):
+                n['args'] = copy.deepcopy(a)
+                n['kwargs'] = copy.deepcopy(k)
+            yield q
 
 
 def call_nodes_of(stmts):
